@@ -80,7 +80,7 @@ Proof.
   unfold syn_div_in_place_full.
   destruct (Nat.eqb_spec a 0); [discriminate|].
   destruct (feqb O b zero) eqn:Eb; [discriminate|].
-  destruct (Nat.ltb_spec a (length p)); cbn [negb]; [|discriminate].
+  destruct (Nat.ltb_spec a (length p)) as [Hlt|Hlt]; cbn [negb]; [|discriminate].
   destruct (Nat.eqb_spec a 1).
   - subst a. destruct (syn_lin O p b) as [p' c] eqn:E. intros H; inversion H; subst q r. clear H.
     assert (Hne : p <> []) by (destruct p; simpl in *; [lia|discriminate]).
@@ -131,7 +131,7 @@ Proof.
   destruct (Nat.eqb_spec a 0). { split; [congruence|lia]. }
   destruct (feqb O b zero) eqn:Eb. { apply (feqb_true O L) in Eb. split; [congruence|tauto]. }
   apply (feqb_false O L) in Eb.
-  destruct (Nat.ltb_spec a (length p)); cbn [negb]. 2: { split; [congruence|lia]. }
+  destruct (Nat.ltb_spec a (length p)) as [Hlt|Hlt]; cbn [negb]. 2: { split; [congruence|lia]. }
   split; [tauto|]. intros _.
   destruct (Nat.eqb_spec a 1).
   - destruct (syn_lin O p b). discriminate.
@@ -176,7 +176,7 @@ Lemma nrem_length : forall roots cs, length cs = length roots -> length (nrem ro
 Proof.
   induction roots as [|r rs IH]; intros cs H. reflexivity.
   destruct cs as [|c cs]; [discriminate|]. cbn [nrem]. cbv zeta.
-  rewrite add_length, sub_length, mul_by_scalar_length. simpl. rewrite IH by (simpl in H; lia). lia.
+  rewrite add_length, sub_length, mul_by_scalar_length. cbn [length] in *. rewrite IH by lia. lia.
 Qed.
 
 Lemma syn_roots_loop_spec x : forall roots p q cs, syn_roots_loop O p roots = (q, cs) ->
@@ -201,7 +201,7 @@ Lemma syn_div_roots_full_spec p roots q cs : syn_div_roots_in_place_full O p roo
     forall x, peval p x = peval q x *f pprod roots x +f peval rem x.
 Proof.
   unfold syn_div_roots_in_place_full. destruct roots as [|r0 rs]; [discriminate|].
-  destruct (Nat.ltb_spec (length (r0 :: rs)) (length p)); cbn [negb]; [|discriminate].
+  destruct (Nat.ltb_spec (length (r0 :: rs)) (length p)) as [Hlt|Hlt]; cbn [negb]; [|discriminate].
   intros H; inversion H as [E]. clear H.
   destruct (syn_roots_loop_spec zero (r0 :: rs) p q cs E) as (_ & Hl & Hc).
   split; [exact Hl|]. exists (nrem (r0 :: rs) cs). split. now apply nrem_length.
@@ -213,7 +213,7 @@ Lemma syn_div_roots_total_iff p roots :
 Proof.
   unfold syn_div_roots_in_place, syn_div_roots_in_place_full. destruct roots as [|r0 rs].
   - simpl. split; [congruence|tauto].
-  - destruct (Nat.ltb_spec (length (r0 :: rs)) (length p)); cbn [negb bind].
+  - destruct (Nat.ltb_spec (length (r0 :: rs)) (length p)) as [Hlt|Hlt]; cbn [negb bind].
     + split; [intros _; split; [discriminate|assumption]|discriminate].
     + split; [congruence|lia].
 Qed.
